@@ -53,14 +53,14 @@ theorem dispatch_correct : ∀ e ∈ ExcClass.all,
       = .returned (some (documentedCode e)) (some (documentedCode e)) (documentedReset e) true := by
   decide +kernel
 
-theorem dispatch_correct' (e : ExcClass) :
+theorem dispatch_correct_all (e : ExcClass) :
     observe catchAll e
       = .returned (some (documentedCode e)) (some (documentedCode e)) (documentedReset e) true :=
   dispatch_correct e (excClass_all_complete e)
 
 /-- No class of exception escapes a `CATCH_ALL`. -/
 theorem catch_all_total (e : ExcClass) : observe catchAll e ≠ .escapes := by
-  rw [dispatch_correct' e]; exact fun h => Observed.noConfusion h
+  rw [dispatch_correct_all e]; exact fun h => Observed.noConfusion h
 
 -- non-vacuity: the two shadowing hazards are real distinctions of the model
 example : isBase .runtimeError .overflowError = true ∧ documentedCode .overflowError ≠ documentedCode .runtimeError := by
@@ -122,7 +122,7 @@ theorem boundary : ∀ f ∈ cEntryPoints, f.retInt = true → f.cannotThrow = f
       = .returned (some (documentedCode e)) (some (documentedCode e)) (documentedReset e) true := by
   intro f hf hr hc e
   rcases all_tight_partial f hf hr with ⟨_, h2⟩ | h
-  · rw [h2]; exact dispatch_correct' e
+  · rw [h2]; exact dispatch_correct_all e
   · simp [hc] at h
 
 -- non-vacuity: almost every row is in the scope of `boundary`
@@ -221,7 +221,7 @@ conversion of its first (handle) parameter; no other entry point contains a `del
 theorem delete_once : ∀ f ∈ cEntryPoints, f.deleteOK = true :=
   of_chunks (fun f => f.deleteOK) (by decide +kernel)
 
-theorem delete_once' : ∀ f ∈ cEntryPoints,
+theorem delete_once_spec : ∀ f ∈ cEntryPoints,
     (f.kind = .delete → f.deleteArgs = [1]) ∧ (f.kind ≠ .delete → f.deleteArgs = []) := by
   intro f hf
   have h := delete_once f hf
